@@ -12,6 +12,14 @@
      "alone"  it is emitted alone (what the statement allows; the repaired code)
      "hang"   the extraction makes no progress and the loop never ends (the pinned code)
 
+   tail = what split() does with the remainder of the request once no item is left in it:
+     "dropped"  nothing is returned for it (a part is made of items; the repaired code)
+     "kept"     it is returned as a last part WITHOUT items (the pinned code returns the remainder whenever it
+                still has a resource entry; with metrics and the bytes sizer the extraction moves the data points
+                and leaves resource, scope and metric descriptors behind, so this happens all the time there).
+                The model has no container overhead, so here the remainder is empty only after a last item that
+                was sent alone: a narrower trigger than the code's, the same consequence for the batcher.
+
    An item is a record with at least the field w (abstract byte weight). *)
 EXTENDS Integers, Sequences
 
@@ -28,20 +36,22 @@ Diverges  == [ok |-> FALSE, parts |-> <<>>]
 Parts(ps) == [ok |-> TRUE, parts |-> ps]
 
 \* req.split(maxSize, sz): extract while size > max, then the remainder
-RECURSIVE SplitP(_, _, _, _)
-SplitP(s, sizer, max, oversized) ==
+RECURSIVE SplitTP(_, _, _, _, _)
+SplitTP(s, sizer, max, oversized, tail) ==
   IF max = 0 \/ SizeOfP(s, sizer) <= max THEN Parts(<<s>>)
   ELSE LET k0 == IF sizer = "items" THEN max ELSE Fit(s, max)
            k  == IF k0 = 0 /\ oversized = "alone" THEN 1 ELSE k0
        IN IF k = 0 THEN Diverges
-          ELSE LET rest == SplitP(SubSeq(s, k + 1, Len(s)), sizer, max, oversized)
+          ELSE LET rest == SplitTP(SubSeq(s, k + 1, Len(s)), sizer, max, oversized, tail)
                IN IF ~rest.ok THEN Diverges
-                  \* nothing is left after a last item that was sent alone: no empty request is returned
-                  ELSE IF rest.parts = << <<>> >> THEN Parts(<<SubSeq(s, 1, k)>>)
+                  \* nothing is left after a last item that was sent alone: no empty request is returned ("dropped")
+                  ELSE IF rest.parts = << <<>> >> /\ tail = "dropped" THEN Parts(<<SubSeq(s, 1, k)>>)
                   ELSE Parts(<<SubSeq(s, 1, k)>> \o rest.parts)
+SplitP(s, sizer, max, oversized) == SplitTP(s, sizer, max, oversized, "dropped")
 
-\* cur.MergeSplit(ctx, max, sizer, new); cur = <<>> stands for "no current request"
-MergeSplitP(curItems, newItems, sizer, max, oversized) == SplitP(curItems \o newItems, sizer, max, oversized)
+\* cur.MergeSplit(ctx, max, sizer, new); cur = <<>> stands for "no current request" (or a held remainder without items)
+MergeSplitTP(curItems, newItems, sizer, max, oversized, tail) == SplitTP(curItems \o newItems, sizer, max, oversized, tail)
+MergeSplitP(curItems, newItems, sizer, max, oversized) == MergeSplitTP(curItems, newItems, sizer, max, oversized, "dropped")
 
 (* The driver's fold: what the batcher does with a sequence of requests when nothing is ever held
    back: every part but the last is emitted, the last becomes the current request; at the end the
